@@ -143,7 +143,8 @@ _XML_SPECIAL = ['&', '<', '>', '"', "'", ']]>', '<![CDATA[', '&amp;', '&lt;',
                 '\\n', '%', '=', ',', ':', '/', '.', '\x85', ' ',
                 'ä', '€', '\U0001F600', '\U00010000', '퟿',
                 '', '�', 'TRUE', '42', '-1', '1.5', 'NULL', '{',
-                '}', '20180911124613.128000+000', '//h/root:C.k=1', '\x7f']
+                '}', '{}', '{0}', '{x}', '{0!A}', '%s', '%(x)s', '{{',
+                '20180911124613.128000+000', '//h/root:C.k=1', '\x7f']
 
 
 def _xml_char_ok(c):
